@@ -107,7 +107,7 @@ CHECKS["C09"] = dict(
     obligations=[
         ob("VH_C09_order_lemma", dict(ND=2, NN=2), Q, covers=["done"], bounds="|d|<=2, sibling names 1..2 bytes"),
         ob("VH_C09_order_lemma", dict(ND=3, NN=3), T, covers=["done"], bounds="|d|<=3, sibling names 1..3 bytes"),
-        ob("VH_C09_walk", {}, covers=["done", "hardlink"], bounds="model-FS tree {a/, a/x, a-b, a.c, b?}: a-b regular/symlink/char device, every hard-link grouping of the regular files, symbolic permission bits/uid/gid"),
+        ob("VH_C09_walk", {}, covers=["done", "hardlink", "hardlinked-symlink"], bounds="model-FS tree {a/, a/x, a-b, a.c, b?}: a-b regular/symlink/char device, every hard-link grouping of the regular files, symbolic permission bits/uid/gid"),
     ],
 )
 
